@@ -25,6 +25,8 @@ def modelOps (c : Cfg) : Src.Ops α where
   grade := fun a gs => castMV (gradeSel c (gs.map Int.toNat) (uncastMV a))
   -- `n * mv` for a python int n: the source only ever writes `2 * mv`, which the model spells `v + v`
   rmulInt := fun n a => if n == 2 then castMV (scale2 (uncastMV a)) else a
+  -- coefficient-wise division by a python int: only the outer series uses it, with its own instance (`outerOps` in SourceOuter.lean)
+  divInt := fun a _ => a
   e := fun a => scalarPart (uncastMV a)
   one := castMV [(0, 1)]
   pss := castMV [(c.pss, 1)]
